@@ -21,6 +21,7 @@ Class OrdLaws (T : Type) `{OrdOps T} := {
   omul_1_l : forall a, omul oone a = a;
   omul_add_distr_l : forall a b c, omul a (oadd b c) = oadd (omul a b) (omul a c);
   omul_mono : forall a b c, ole oz a -> ole b c -> ole (omul a b) (omul a c);
+  omul_lt_mono : forall a b c, oltb oz a = true -> oltb b c = true -> oltb (omul a b) (omul a c) = true;
   ole_0_1 : ole oz oone
 }.
 
@@ -29,7 +30,7 @@ Lemma Zle_total_b (a b : Z) : Z.leb a b = true \/ Z.leb b a = true.
 Proof. destruct (Z.le_ge_cases a b); [left|right]; apply Z.leb_le; lia. Qed.
 #[export] Instance ZOrdLaws : OrdLaws Z.
 Proof.
-  constructor; unfold ole; cbn; try exact Zle_total_b; intros; rewrite ?Z.leb_le in *; try lia; try nia.
+  constructor; unfold ole, oltb; cbn; try exact Zle_total_b; intros; rewrite ?negb_true_iff, ?Z.leb_gt in *; rewrite ?Z.leb_le in *; try lia; try nia.
   all: try (destruct a; reflexivity).
 Qed.
 
